@@ -27,24 +27,32 @@ gvars == <<vars, ghist>>
 NoteFor(h, m) == IF Len(h) > 0 /\ h[Len(h)].a = "Rebase" THEN m ELSE ""
 Track(m) == ghist' = IF RecordHist THEN Append(ghist, NoteFor(hist', m)) ELSE ghist
 
+\* draws of this module come from the state and the step number (TLC's RandomElement repeats the same sequence of draws
+\* in every behaviour)
+MixG(salt) == Len(hist) * 7919 + NCommits * 131 + Len(stashes) * 31 + Cardinality({b \in Branches : Exists(b)}) * 17
+              + Cardinality({b \in Branches : ws[b].mkind # "none"}) * 13 + salt * 97 + salt * salt * 13
+RECURSIVE NthOfG(_, _)
+NthOfG(S, n) == LET x == CHOOSE y \in S : TRUE IN IF n <= 1 THEN x ELSE NthOfG(S \ {x}, n - 1)
+PickG(S, salt) == IF RecordHist THEN {NthOfG(S, (MixG(salt) % Cardinality(S)) + 1)} ELSE S
+
 GC(s, mode) ==
     /\ On("GC")
     /\ Unchanged
     /\ Rec(Step("GC", s, [mode |-> mode], "ok", NoQ))
     /\ Track("")
 Reopen(s) ==
-    /\ On("Reopen") /\ Rarely
+    /\ On("Reopen") /\ (RecordHist => MixG(2) % 4 = 0)
     /\ Unchanged
     /\ Rec(Step("Reopen", s, <<>>, "ok", NoQ))
     /\ Track("")
 
-MidChoice == IF RecordHist THEN {RandomElement(IF Len(hist) >= 0 THEN GCModes \cup {""} ELSE {})} ELSE {""}
+MidChoice == IF RecordHist THEN PickG(GCModes \cup {""}, 1) ELSE {""}
 
 InitG == Init /\ ghist = <<>>
 NextG ==
     \/ (Next /\ \E m \in MidChoice : Track(m))
-    \/ \E s \in Pick(Sessions) : \E mode \in Pick(GCModes) : GC(s, mode)
-    \/ \E s \in Pick(Sessions) : Reopen(s)
+    \/ \E s \in PickG(Sessions, 3) : \E mode \in PickG(GCModes, 4) : GC(s, mode)
+    \/ \E s \in PickG(Sessions, 5) : Reopen(s)
 SpecG == InitG /\ [][NextG]_gvars
 
 \* C08 on the repository machine: a collection (and a reopen) is invisible
